@@ -285,7 +285,13 @@ inline GPoly drawPoly(int res, int maxCells, bool allowHoles, int forceShape = -
     for (int i = 0; i < n; i++) g.outer.push_back(mapPt(rad[i] * std::cos(ang[i]), rad[i] * std::sin(ang[i])));
     if (nholes) {
         double rin = rmin * std::cos(std::min(maxgap / 2, 1.5));  // inscribed disc of the outer star
-        if (rin > 0.15) {
+        // hole layouts (all holes pairwise disjoint and inside the inscribed disc):
+        //   0 star-shaped holes in disjoint discs (bounding boxes mostly disjoint)
+        //   1 parallel slanted strips: disjoint holes whose bounding boxes overlap almost completely
+        //   2 an L-shaped hole and a small hole in the notch of the L: one bounding box contains the other hole
+        //   3 a ring of 4-6 small holes
+        int layout = rin > 0.15 ? rpick({4, 3, 2, 2}) : 0;
+        if (rin > 0.15 && layout == 0) {
             double hd = 0.5 * rin, hrMax = std::min(0.4 * rin, nholes > 1 ? hd * std::sin(gen::PI / nholes) * 0.8 : 0.4 * rin);
             for (int j = 0; j < nholes; j++) {
                 double th = (j + 0.2 + 0.6 * runit()) * 2 * gen::PI / nholes;
@@ -301,7 +307,57 @@ inline GPoly drawPoly(int res, int maxCells, bool allowHoles, int forceShape = -
                 }
                 g.holes.push_back(h);
             }
+        } else if (layout == 1) {
+            int m = ri(2, 4);
+            double al = runit() * 2 * gen::PI, ca = std::cos(al), sa = std::sin(al);
+            double pitch = 1.2 * rin / m, half = 0.45 * rin;  // strips along direction al, stacked perpendicular to it
+            for (int j = 0; j < m; j++) {
+                double o = (j - (m - 1) / 2.0) * pitch, t = pitch * (0.15 + 0.6 * runit()) / 2;  // thickness < pitch: disjoint
+                double l0 = -half * (0.6 + 0.4 * runit()), l1 = half * (0.6 + 0.4 * runit());
+                std::vector<LatLng> h;
+                auto P = [&](double u, double v) { return mapPt(u * ca - v * sa, u * sa + v * ca); };
+                if (rbool()) {  // rectangle
+                    h.push_back(P(l0, o - t)); h.push_back(P(l1, o - t)); h.push_back(P(l1, o + t)); h.push_back(P(l0, o + t));
+                } else {  // thin triangle
+                    h.push_back(P(l0, o - t)); h.push_back(P(l1, o)); h.push_back(P(l0, o + t));
+                }
+                g.holes.push_back(h);
+            }
+        } else if (layout == 2) {
+            double a = 0.55 * rin, th = a * (0.2 + 0.3 * runit());  // L occupies the square [-a,a]^2 minus its upper-right part
+            double al = runit() * 2 * gen::PI, ca = std::cos(al), sa = std::sin(al);
+            auto P = [&](double u, double v) { return mapPt(u * ca - v * sa, u * sa + v * ca); };
+            std::vector<LatLng> L = {P(-a, -a), P(a, -a), P(a, -a + th), P(-a + th, -a + th), P(-a + th, a), P(-a, a)};
+            g.holes.push_back(L);
+            int extra = ri(1, 2);
+            for (int j = 0; j < extra; j++) {
+                // small holes inside the notch (-a+th, a) x (-a+th, a), clear of the L
+                double lo2 = -a + th * 1.3, hi2 = a, w2 = (hi2 - lo2);
+                double cx = lo2 + w2 * (j == 0 ? 0.3 : 0.75), cy = lo2 + w2 * (j == 0 ? 0.3 : 0.75), r2 = w2 * 0.18 * (0.3 + 0.7 * runit());
+                int hn = ri(3, 6);
+                std::vector<LatLng> h;
+                for (int i = 0; i < hn; i++) {
+                    double an = (i + 0.1 + 0.8 * runit()) * 2 * gen::PI / hn;
+                    h.push_back(P(cx + r2 * std::cos(an), cy + r2 * std::sin(an)));
+                }
+                g.holes.push_back(h);
+            }
+        } else if (layout == 3) {
+            int m = ri(4, 6);
+            double hd = 0.6 * rin, hr = hd * std::sin(gen::PI / m) * 0.7;
+            for (int j = 0; j < m; j++) {
+                double th = (j + 0.5) * 2 * gen::PI / m, rr0 = hr * (0.3 + 0.7 * runit());
+                int hn = ri(3, 5);
+                std::vector<LatLng> h;
+                for (int i = 0; i < hn; i++) {
+                    double an = (i + 0.1 + 0.8 * runit()) * 2 * gen::PI / hn;
+                    h.push_back(mapPt(hd * std::cos(th) + rr0 * std::cos(an), hd * std::sin(th) + rr0 * std::sin(an)));
+                }
+                g.holes.push_back(h);
+            }
         }
+        // present the holes in a generated order (hole loops are indexed; a slip in the indexing must meet every order)
+        for (size_t i = g.holes.size(); i > 1; i--) std::swap(g.holes[i - 1], g.holes[(size_t)ri(0, (int)i - 1)]);
     }
     return g;
 }
